@@ -165,8 +165,83 @@ pub fn check_stream(set: Set, data: &[u8]) -> Result<(usize, bool), Failure> {
             }
         }
     }
+    // the multicast-setup (TS005) and certification (TS009) sets: framing per the documents' own
+    // length tables, written down here independently of the crate's `len` attributes and helpers
+    if let Some((want, wend)) = ref_split_pkg(set, data) {
+        let got: Vec<(u8, Vec<u8>)> = items.iter().map(|i| (i.cid, i.bytes.clone())).collect();
+        let err_kind = err.map(|e| matches!(e, ParseError::UnknownCid(_)));
+        let want_kind = wend.err().map(|(_, unknown)| unknown);
+        if want != got || want_kind != err_kind {
+            return Err(Failure::new("spec-framing", stream_case(set, data), format!("reference split {want:?} (end {wend:?}) vs iterator {got:?} (err {err:?})")).with_fp(format!("spec-framing/{}", set.name())));
+        }
+    }
     std::hint::black_box(&items.iter().map(|i| i.fields.len()).sum::<usize>());
     Ok((items.len(), err.is_some()))
+}
+
+/// Reference framing of the package command sets. `None` for the LoRaWAN MAC sets (refcodec owns
+/// those). Lengths exclude the CID. Error = (offset, unknown CID?) — otherwise truncated.
+///  TS005 downlink: PackageVersionReq 0, McGroupStatusReq 1, McGroupSetupReq 29 (id 1 + addr 4 + key 16
+///  + min/max FCnt 4+4), McGroupDeleteReq 1, McClassCSessionReq 10 (id 1 + time 4 + timeout 1 + freq 3
+///  + DR 1), McClassBSessionReq 10 (id 1 + time 4 + periodicity/timeout 1 + freq 3 + DR 1).
+///  TS005 uplink: PackageVersionAns 2, McGroupStatusAns 1 + 5 per bit set in AnsGroupMask (low nibble
+///  of the status octet), McGroupSetupAns 1, McGroupDeleteAns 1, McClassCSessionAns 4, McClassBSessionAns 4.
+///  TS009 (the subset the crate names): DutResetReq/DutJoinReq/RxAppCntReq/LinkCheckReq/DutVersionsReq 0,
+///  AdrBitChangeReq 1, TxPeriodicityChangeReq 1, RxAppCntAns 2, DutVersionsAns 12; TxFramesCtrlReq and
+///  EchoIncPayloadReq/Ans carry no length and extend to the end of the frame (at least one octet).
+fn ref_split_pkg(set: Set, data: &[u8]) -> Option<(Vec<(u8, Vec<u8>)>, Result<(), (usize, bool)>)> {
+    enum L {
+        Fixed(usize),
+        Rest,
+        GroupStatus,
+    }
+    let table = |cid: u8| -> Option<L> {
+        Some(match (set, cid) {
+            (Set::DownMc, 0x00) => L::Fixed(0),
+            (Set::DownMc, 0x01) => L::Fixed(1),
+            (Set::DownMc, 0x02) => L::Fixed(29),
+            (Set::DownMc, 0x03) => L::Fixed(1),
+            (Set::DownMc, 0x04) => L::Fixed(10),
+            (Set::DownMc, 0x05) => L::Fixed(10),
+            (Set::UpMc, 0x00) => L::Fixed(2),
+            (Set::UpMc, 0x01) => L::GroupStatus,
+            (Set::UpMc, 0x02) => L::Fixed(1),
+            (Set::UpMc, 0x03) => L::Fixed(1),
+            (Set::UpMc, 0x04) => L::Fixed(4),
+            (Set::UpMc, 0x05) => L::Fixed(4),
+            (Set::DownDut, 0x01 | 0x02 | 0x09 | 0x20 | 0x7F) => L::Fixed(0),
+            (Set::DownDut, 0x04 | 0x06) => L::Fixed(1),
+            (Set::DownDut, 0x07 | 0x08) => L::Rest,
+            (Set::UpDut, 0x08) => L::Rest,
+            (Set::UpDut, 0x09) => L::Fixed(2),
+            (Set::UpDut, 0x7F) => L::Fixed(12),
+            _ => return None,
+        })
+    };
+    if matches!(set, Set::DownMac | Set::UpMac) {
+        return None;
+    }
+    let mut out = vec![];
+    let mut i = 0usize;
+    while i < data.len() {
+        let cid = data[i];
+        let Some(l) = table(cid) else { return Some((out, Err((i, true)))) };
+        let rest = &data[i + 1..];
+        let n = match l {
+            L::Fixed(n) => n,
+            L::Rest => rest.len().max(1),
+            L::GroupStatus => match rest.first() {
+                Some(st) => 1 + 5 * (st & 0x0F).count_ones() as usize,
+                None => 1,
+            },
+        };
+        if rest.len() < n {
+            return Some((out, Err((i, false))));
+        }
+        out.push((cid, rest[..n].to_vec()));
+        i += 1 + n;
+    }
+    Some((out, Ok(())))
 }
 
 fn frame_case(data: &[u8]) -> Value {
@@ -346,6 +421,14 @@ pub fn check_new(data: &[u8]) -> Result<u32, Failure> {
 
 pub fn replay(case: &Value, _kf: &KnownFindings) -> Result<(), Failure> {
     let data = unhex(case["data"].as_str().unwrap_or(""));
+    verif_core::hang::begin("all", &data);
+    let r = replay_inner(case, &data);
+    verif_core::hang::end();
+    r
+}
+
+fn replay_inner(case: &Value, data: &[u8]) -> Result<(), Failure> {
+    let data = data.to_vec();
     if case["kind"] == "new" {
         return check_new(&data).map(|_| ());
     }
@@ -364,6 +447,13 @@ pub fn replay(case: &Value, _kf: &KnownFindings) -> Result<(), Failure> {
 }
 
 fn one(st: &mut Stats, data: &[u8], sets: &[Set], frames: bool, distinct: bool) {
+    // "terminating": a case that never returns is reported by the non-termination monitor
+    verif_core::hang::begin("all", data);
+    one_inner(st, data, sets, frames, distinct);
+    verif_core::hang::end();
+}
+
+fn one_inner(st: &mut Stats, data: &[u8], sets: &[Set], frames: bool, distinct: bool) {
     let mut nt = false;
     for s in sets {
         st.eval();
@@ -419,7 +509,7 @@ fn one(st: &mut Stats, data: &[u8], sets: &[Set], frames: bool, distinct: bool) 
 
 pub fn run(ctx: &mut Ctx) {
     let thorough = ctx.tier == Tier::Thorough;
-    ctx.rule = format!("(a) exhaustive: every byte string of length 0..={} through the 6 MAC-command iterators and all frame parsers/decrypt entry points; (b) exhaustive framing grid: every CID 0..=255 x every payload length 0..=longest+2 x 4 fill patterns x 3 continuations per command set; (c) frame header grid: all 65536 MHDR x FCtrl pairs x lengths {{0..=33, 64, 255}}; (d) structured random streams <= 255 bytes (valid commands + mutations); (e) the checked per-command constructors XPayload::new(bytes) of all 32 non-empty payload types on every string of (a), on every payload of the framing grid and on the inputs of the frame grid, with every accessor of an accepted view called. Oracle: no panic, bounded steps, Ok* Err? None forever, yielded commands are consecutive slices of the input, error names the CID at its offset, bytes().len()==len(), LoRaWAN MAC sets agree with the specification's CID/length table, every accessor called. Non-trivial: some parser returned Ok with >= 1 command/field read; (a)-(c) distinct by construction, (d) by hash", if thorough { 3 } else { 2 });
+    ctx.rule = format!("(a) exhaustive: every byte string of length 0..={} through the 6 MAC-command iterators and all frame parsers/decrypt entry points; (b) exhaustive framing grid: every CID 0..=255 x every payload length 0..=longest+2 x 4 fill patterns x 3 continuations per command set; (c) frame header grid: all 65536 MHDR x FCtrl pairs x lengths {{0..=33, 64, 255}}; (d) structured random streams <= 255 bytes (valid commands + mutations); (e) the checked per-command constructors XPayload::new(bytes) of all 32 non-empty payload types on every string of (a), on every payload of the framing grid and on the inputs of the frame grid, with every accessor of an accepted view called. Oracle: no panic, termination (a non-termination monitor reports any case that stays inside the code under test for more than 20 s), bounded steps, Ok* Err? None forever, yielded commands are consecutive slices of the input, error names the CID at its offset, bytes().len()==len(), LoRaWAN MAC, TS005 and TS009 sets agree with the documents' CID/length tables (written down independently), every accessor called. Non-trivial: some parser returned Ok with >= 1 command/field read; (a)-(c) distinct by construction, (d) by hash", if thorough { 3 } else { 2 });
     ctx.exhaustive = true;
     ctx.assumptions = vec!["the visitor (harness-mac/src/visit.rs) calls every public accessor; exhaustive matches make a new command a compile error".into(), "exhaustive only for the finite sub-spaces (a)-(c); (d) is sampled".into()];
     let seed = ctx.seed;
@@ -460,7 +550,10 @@ pub fn run(ctx: &mut Ctx) {
                         if cid == 0 {
                             st.eval();
                             st.class("constructor-grid");
-                            match check_new(&payload) {
+                            verif_core::hang::begin("new", &payload);
+                            let r = check_new(&payload);
+                            verif_core::hang::end();
+                            match r {
                                 Ok(k) => {
                                     if k > 0 {
                                         st.nt_distinct();
